@@ -199,6 +199,8 @@ def run_translator(ck):
            "gen_server_read_timeout_ms, gen_server_read_header_timeout_ms).\nPrint SVO.\n"
            "Definition LKS := Eval vm_compute in (lockstep_ok gen_on_entries_calls gen_on_entries_lockstep, "
            "map (fun l => let '(f, fn, v, _) := l in (fn, v)) (filter (fun l => let '(_, _, v, _) := l in negb (String.eqb v \"lockstep\")) gen_on_entries_lockstep)).\nPrint LKS.\n"
+           "Definition FPM := Eval vm_compute in (frame_progs_eqb gen_frame_progs frame_progs_model && forallb frame_ok gen_frame_progs, "
+           "map fp_name (filter (fun p => negb (frame_ok p)) gen_frame_progs)).\nPrint FPM.\n"
            "Definition LSW := Eval vm_compute in (ce_all_limited gen_content_encodings gen_ce_body_wraps, gen_ce_body_wraps).\nPrint LSW.\n")
     txt = txt.replace("model.IngestPipe gen.GenGoroutinesWriter", "model.IngestPipe model.IngestFraming gen.GenGoroutinesWriter")
     ok, out = ck.coq_make(["model/IngestRobust.vo", "model/IngestPipe.vo", "model/IngestFraming.vo", "gen/GenGoroutinesWriter.vo"])
@@ -277,6 +279,9 @@ def run_translator(ck):
     ck.obligation("the slices handed to onEntries at the non-literal call sites change length only in lockstep (append / [:0] / make applied to every one of them "
                   "in the same statement list; derived arguments are make / fastFillArray of their length)", val("LKS").startswith("(true"),
                   "(ok, sites that are not lockstep with the reason) = " + val("LKS"))
+    ck.obligation("the bufio.Scanner loops of the Cloudflare, Elasticsearch-bulk and Zipkin-NDJSON decoders split at lines, allow 16 MiB tokens, return on every line-handler "
+                  "error, look at scanner.Err() and wrap it in NewUnmarshalError (framing_loops_match_source)", val("FPM").startswith("(true"),
+                  "(ok, loops that can drop lines silently) = " + val("FPM"))
     ck.extra["handler_side_panic_sites"] = val("NSI")
     ck.extra["index_slice_assert_sites_in_package_unmarshal_(all;_those_not_handler-side_run_below_Decode_under_tamePanic)"] = val("NST")
     ck.extra["goroutines_in_writer"] = val("NG")
